@@ -5,6 +5,11 @@ Pure world + sandbox file system: the real `cmd_receive.Receiver` methods (`_han
 driven in a scratch tree, the same operations go through the Lean model (`WV.C05.driver`), and the
 property's oracle compares a snapshot of the whole scratch tree (the working directory *and five
 levels of ancestors*) before and after.
+
+`multi` cases: sequences of 1-3 `cmd_receive.receive(cfg)` calls with ONE Config object (library embedding, GUI, retry
+loop) — refused -> retry, success -> another name, file -> directory — each receive judged exactly like a single one
+against the options the USER gave and the file system as it is when it starts, plus: a receive leaves the user's options
+(cwd, output_file, accept_file) as the user gave them.  The model threads the args record through the same `recv_*` lines.
 """
 import contextlib
 import errno
@@ -38,12 +43,17 @@ TRUSTED = [
     "os.remove, open(…, 'wb') (follows a link), os.rename (replaces a link); symbolic links are modelled by what they "
     "finally resolve to; no concurrent modification of the tree (symlink races are outside the property)",
     "estimate_free_space: only its statvfs(dirname(dest)) failure is modelled; offered sizes are tiny",
+    "WV.Gen.Recv.outlives_receive (state of the receive path that survives one receive(): writes into args, globals, class "
+    "attributes, mutable defaults, module-level containers) is a syntactic scan of cli/cmd_receive.py, not an escape analysis; "
+    "what it cannot see is covered by observation only (the multi-receive cases)",
 ]
 RULE = ("configuration matrix {output-file unset / new / existing file / existing dir / fifo / missing parent} x "
         "{accept-file on/off, answers y/Y/''/n} x {pre-existing destination none/file/dir, pre-existing <dest>.tmp} x "
         "{file, directory offers} x names from a grammar (components '', '.', '..', 'a', 'a b', non-ASCII, '-x', "
         "'.hidden', NUL, 300 chars; joined by '/', '//', '\\\\'; leading/trailing separators; absolute names into the "
-        "sandbox) plus zip archives with hostile member names; thorough adds every name of <= 3 components; "
+        "sandbox) plus zip archives with hostile member names; sequences of 1-3 receive(cfg) calls with ONE Config object "
+        "(refused->retry, success->other name, file->directory, failed->retry; per-receive answers; via the click entry point "
+        "or a plain args object) x every output option; thorough adds every name of <= 3 components; "
         "non-trivial = reaches a decision branch of _decide_destname/_extract_file; distinct = distinct canonical traces")
 
 SYS_TMP = tempfile.gettempdir()          # captured before any case redirects tempfile.tempdir
@@ -295,6 +305,94 @@ def go_corpus(rng):
     return out
 
 
+# ---------------------------------------------------------------------------
+# sequences of receives with one Config object
+
+MULTI_MEMBERS = [["inner.txt", 0o600], ["sub/x", 0o644]]
+
+
+def mstep(mode, name, answer="y", pre="none", pretmp="none", fault="none", members=None, **kw):
+    st = dict(mode=mode, name=name, answer=answer, pre=pre, pretmp=pretmp, fault=fault, zipmode="zipfile/deflated")
+    if mode == "dir":
+        st["members"] = MULTI_MEMBERS if members is None else members
+    st.update(kw)
+    return st
+
+
+def multi_corpus():
+    """hand-picked histories (no random choice): refused -> retry, success -> another name, file -> directory,
+    with and without something already sitting at the later offer's name; every output option; both ways to get a Config"""
+    F, D = "file", "dir"
+    seqs = [
+        # refused (the user's own notes.txt is there), then a retry / another offer with the same Config
+        [mstep(F, "notes.txt", pre="file"), mstep(F, "../../somewhere/else.txt")],
+        [mstep(F, "notes.txt", pre="file"), mstep(F, "notes.txt")],
+        [mstep(F, "notes.txt", pre="file"), mstep(D, "x/photos")],
+        [mstep(D, "photos", pre="dir"), mstep(F, "else.txt"), mstep(D, "photos/")],
+        # success, then a second offer under another name; with and without something at that name
+        [mstep(F, "first.txt"), mstep(F, "second.txt")],
+        [mstep(F, "first.txt"), mstep(F, "second.txt", pre="file")],
+        [mstep(F, "first.txt"), mstep(F, "sub/second.txt", pre="dir")],
+        [mstep(F, "first.txt"), mstep(F, "first.txt")],
+        # file -> directory, directory -> file, directory -> directory
+        [mstep(F, "first.txt"), mstep(D, "photos")],
+        [mstep(D, "photos"), mstep(F, "x/notes.txt")],
+        [mstep(D, "photos"), mstep(F, "notes.txt", pre="file"), mstep(D, "../more")],
+        [mstep(D, "photos"), mstep(D, "photos")],
+        [mstep(D, "photos"), mstep(F, "inner.txt"), mstep(F, "photos")],
+        # a failed transfer, then the retry
+        [mstep(F, "a", fault="dropped"), mstep(F, "b")],
+        [mstep(D, "a", fault="dropped"), mstep(D, "a")],
+        [mstep(D, "a", fault="badzip"), mstep(F, "b", pre="file")],
+        # the prompt is answered per receive
+        [mstep(F, "first.txt", answer="y"), mstep(F, "second.txt", answer="n"), mstep(F, "third.txt", answer="")],
+        [mstep(F, "first.txt", answer="n"), mstep(F, "second.txt", answer="y")],
+        [mstep(F, "first.txt", answer="n"), mstep(D, "second", answer="y", pre="dir")],
+        # degenerate names in the history
+        [mstep(F, ".."), mstep(F, "a")],
+        [mstep(D, "x/."), mstep(F, ""), mstep(F, "a", pre="file")],
+    ]
+    out = []
+    vias = itertools.cycle([("entry", "other"), ("args", None), ("entry", "same"), ("args", None), ("entry", "unset")])
+    for i, sq in enumerate(seqs):
+        for o in MATRIX_OUTPUTS:
+            for acc in ([True, False] if i % 2 == 0 or o == "unset" else [True]):
+                via, pwd = next(vias)
+                c = dict(kind="multi", via=via, output=o, accept=acc, fs="same", steps=[dict(x) for x in sq])
+                if pwd:
+                    c["pwd"] = pwd
+                out.append(c)
+    return out
+
+
+MULTI_NAMES = ["a", "b", "a", "notes.txt", "x/a", "../b", "a/", "..", "", ".", "sub/inner.txt", "out_dir", "out_new", "out_file",
+               "keepdir", "keep.txt", "a.tmp", "{CWD}/keepdir/inner.txt", "{OUTER}/evil/x", "a b", "ä名", "File.TXT", "-x"]
+
+
+def multi_case(rng):
+    n = rng.choice([2, 2, 2, 3, 3, 1])
+    steps = []
+    for _ in range(n):
+        nm = rng.choice(MULTI_NAMES) if rng.random() < 0.7 else gen_name(rng, [c for c in COMPONENTS if os_clean(c)])
+        if not os_clean(nm):
+            nm = "a"
+        st = mstep(rng.choice(["file", "file", "dir"]), nm, answer=rng.choice(["y", "y", "", "Y", "n", "no"]),
+                   pre=rng.choice(["none", "none", "none", "file", "file", "dir", "socket"]),
+                   pretmp=rng.choice(["none"] * 9 + ["file"]),
+                   fault=rng.choice(["none", "none", "none", "none", "dropped", "badzip"]))
+        if st["mode"] == "dir":
+            st["members"] = [m for m in gen_members(rng) if os_clean(m[0])][:3]
+        if rng.random() < 0.06:
+            st["link"] = rand_link(rng)
+        steps.append(st)
+    via = rng.choice(["entry", "args"])
+    c = dict(kind="multi", via=via, output=rng.choice(["unset"] * 6 + ["dir"] * 3 + ["file"] * 2 + ["new"] * 2 + list(OUTPUTS)),
+             accept=rng.random() < 0.6, fs="cross" if rng.random() < 0.1 else "same", steps=steps)
+    if via == "entry":
+        c["pwd"] = rng.choice(["other", "other", "same", "unset", "relative"])
+    return c
+
+
 def cases(rng, tier):
     out = []
     # --- corpus -------------------------------------------------------------------------------
@@ -337,6 +435,7 @@ def cases(rng, tier):
     out.extend(link_corpus(rng))
     out.extend(special_corpus(rng))
     out.extend(refusal_corpus(rng))
+    out.extend(multi_corpus())
     # --- generated ----------------------------------------------------------------------------
     n = 1 if tier == "quick" else 25
     for _ in range(450 * n):
@@ -349,6 +448,7 @@ def cases(rng, tier):
         out.append(dict(kind="zip", members=gen_members(rng) + gen_members(rng)))
     for _ in range(40 * n):
         out.append(dict(kind="path", names=[gen_name(rng, maxlen=6) for _ in range(6)]))
+    multi = [multi_case(rng) for _ in range(200 * (1 if tier == "quick" else 12))]   # (drawn last: the streams above are unchanged)
     if tier == "thorough":
         # every name of <= 3 components, one random configuration each
         for k in (1, 2, 3):
@@ -359,6 +459,7 @@ def cases(rng, tier):
                     for lead, trail in (("", ""), ("/", ""), ("", "/")):
                         nm = lead + sep.join(parts) + trail
                         out.append(recv_case(rng, name=nm, output=rng.choice(["unset", "unset", "dir", "dir_slash", "file", "new"])))
+    out.extend(multi)
     return out
 
 
@@ -790,6 +891,15 @@ def prepare(case, sb):
     elif make == "fifo":
         os.mkfifo(out_abs)
     out_was_dir = make == "dir"
+    would_be, placeable = place_pre(case, sb, name, out_set, out_abs, out_was_dir)
+    return dict(name=name, out_set=out_set, out_file=out_file, out_abs=out_abs, out_was_dir=out_was_dir,
+                would_be=would_be, placeable=placeable)
+
+
+def place_pre(case, sb, name, out_set, out_abs, out_was_dir):
+    """the pre-existing destination, the decoys, a pre-existing <dest>.tmp and the user's symbolic links for ONE offer
+    named `name`, relative to where the output option points NOW; returns (would_be, placeable).  Never replaces
+    anything that is already there."""
     # pre-existing destination (where an honest reading of the property puts it)
     seg = name.split("/")[-1]
     base = out_abs if out_was_dir else sb.cwd
@@ -849,8 +959,7 @@ def prepare(case, sb):
         if os.path.isdir(d) and not os.path.islink(d) and not os.path.lexists(d + ".tmp") and os_clean(d + ".tmp"):
             sb.put_file(d + ".tmp", b"unrelated: named like the directory next to it")
 
-    return dict(name=name, out_set=out_set, out_file=out_file, out_abs=out_abs, out_was_dir=out_was_dir,
-                would_be=would_be, placeable=placeable)
+    return would_be, placeable
 
 
 def run_recv(case):
@@ -1324,6 +1433,213 @@ def _run_go(case, sb, entry=None):
     return Result(lines, exp, viol, tags, nontrivial=True)
 
 
+# ---------------------------------------------------------------------------
+# more than one receive per process: cmd_receive.receive(cfg) again and again with the SAME Config object
+# (library embedding, GUI, retry loop).  Every receive is judged exactly like a single one — against the options the
+# USER gave and the file system as it is when that receive starts — and must leave the user's options alone.
+
+def user_options(args):
+    """what the user said on the command line, as far as the destination rules read it"""
+    return (getattr(args, "cwd", None), getattr(args, "output_file", None) or None, bool(getattr(args, "accept_file", False)))
+
+
+def hx_any(x):
+    return hx(x if isinstance(x, str) else ("" if x is None else repr(x)))
+
+
+def run_multi(case):
+    sb = Sandbox(cross=case.get("fs") == "cross")
+    old_cwd = os.getcwd()
+    had_pwd = "PWD" in os.environ
+    old_pwd = os.environ.get("PWD")
+    try:
+        entry = None
+        if case.get("via") == "entry":
+            other = os.path.join(sb.par, "elsewhere")
+            os.mkdir(other)
+            sb.put_file(os.path.join(other, "keep.txt"), b"keep me (elsewhere)")
+            pwd = {"other": other, "unset": None, "same": sb.cwd, "relative": "cwd"}[case.get("pwd", "other")]
+            os.chdir(sb.cwd)
+            if pwd is None:
+                os.environ.pop("PWD", None)
+            else:
+                os.environ["PWD"] = pwd
+            entry = dict(pwd=pwd, other=other)
+        with sb.spooling():
+            r = _run_multi(case, sb, entry)
+        r.tags.append("fs:" + ("cross" if sb.cross else "same") + (":emulated" if sb.cross and not sb.real_cross else ""))
+        return r
+    finally:
+        os.chdir(old_cwd)
+        if had_pwd:
+            os.environ["PWD"] = old_pwd
+        else:
+            os.environ.pop("PWD", None)
+        sb.cleanup()
+
+
+def _run_multi(case, sb, entry):
+    from wormhole.errors import TransferError
+    steps = case["steps"]
+    tags = ["multi", f"multi:steps:{len(steps)}", f"multi:via:{case.get('via', 'args')}", f"output:{case['output']}",
+            f"accept:{case['accept']}"]
+    spelling, make = OUTPUTS[case["output"]]
+    out_set = spelling is not None
+    out_file = sb.subst(spelling) if out_set else None
+    out_abs = os.path.normpath(os.path.join(sb.cwd, out_file)) if out_set else None
+    if make == "file":
+        sb.put_file(out_abs, b"old output file")
+    elif make == "dir":
+        sb.put_dir(out_abs)
+    elif make == "fifo":
+        os.mkfifo(out_abs)
+
+    lines, exp, reg, believed = [], [], [], {}
+    proc = os.getcwd()
+
+    def sync(snap):
+        """tell the model about every entry of the sandbox it does not know (yet) as it is now: what the harness just
+        placed for the coming offer, what an archive of an earlier receive unpacked below its destination"""
+        for p in sorted(snap):
+            if p.endswith(".hop"):
+                continue
+            k = kind_of(p)
+            if believed.get(p) != k:
+                reg.append(p)
+                believed[p] = k
+                lines.append(f"fs {hx(p)} {k}")
+                exp.append("ok")
+
+    # ONE Config object for the whole sequence
+    if entry is not None:
+        args = entry_config(out_file, case["accept"])
+        lines.append(f"config_cwd {hx(proc)} {hx(entry['pwd'] or '')}")
+        exp.append(hx_any(args.cwd))
+        lines.append(f"entry_args {hx(proc)} {hx(entry['pwd'] or '')} {hx(out_file or '')} {1 if case['accept'] else 0} -")
+        exp.append("ok")
+    else:
+        args = make_args(sb, out_file, case["accept"])
+        args.code = "1-abc"
+        args.zeromode = False
+        args.allocate = False
+        args.code_length = 2
+        args.appid = None
+        args.debug_state = None
+        args.listen = False
+        args.transit_helper = ""
+        args.launch_tor = False
+        args.tor_control_port = None
+        lines.append(f"args {hx(sb.cwd)} {hx(out_file or '')} {1 if case['accept'] else 0} - {hx(proc)}")
+        exp.append("ok")
+    given = user_options(args)
+
+    made = []
+    base = cmd_receive.Receiver
+    real_init = base.__init__
+    real_send_permission = base._send_permission
+    permission = []
+
+    def init(self, *a, **kw):
+        made.append(self)
+        return real_init(self, *a, **kw)
+
+    def send_permission(self, w_):
+        permission.append(True)
+        return real_send_permission(self, w_)
+
+    viol, late, seq = [], [], []
+    for i, st in enumerate(steps):
+        name = sb.subst(st["name"])
+        fault = st.get("fault", "none")
+        out_was_dir = bool(out_set and os.path.isdir(out_abs))
+        would_be, placeable = place_pre(st, sb, name, out_set, out_abs, out_was_dir)
+        before = sb.snapshot()
+        sync(before)
+        members = [[sb.subst(m[0], would_be if placeable else sb.cwd + "/nodest")] + list(m[1:]) for m in st.get("members", [])]
+        if st["mode"] == "file":
+            body = b"new data %d" % i
+            offer = {"file": {"filename": name, "filesize": len(body)}}
+            payload = body[:4] if fault == "dropped" else body
+        else:
+            body = build_zip(members)
+            offer = {"directory": {"mode": st.get("zipmode", "zipfile/deflated"), "dirname": name, "zipsize": len(body),
+                                   "numbytes": 9 * len(members), "numfiles": len(members)}}
+            payload = body[:-3] if fault == "dropped" else (b"\x00" * len(body) if fault == "badzip" else body)
+        dropped = fault == "dropped"
+        opts_before = user_options(args)
+        args.stdout, args.stderr = io.StringIO(), io.StringIO()
+        w = FakeWormhole([{"transit": {"abilities-v1": [{"type": "direct-tcp-v1"}], "hints-v1": []}}, {"offer": offer}])
+        fake_input = mock.Mock(side_effect=lambda prompt="", _a=st.get("answer", "y"): _a)
+        spy = Spy()
+        result = []
+        del made[:], permission[:]
+        with warnings.catch_warnings():
+            warnings.simplefilter("ignore")
+            with mock.patch.object(cmd_receive, "create", return_value=w), \
+                    mock.patch.object(cmd_receive, "TransitReceiver", fake_transit_receiver(payload)), \
+                    mock.patch.object(cmd_receive, "input", fake_input, create=True), \
+                    mock.patch.object(base, "__init__", init), \
+                    mock.patch.object(base, "_send_permission", send_permission), \
+                    contextlib.redirect_stderr(io.StringIO()), spy.installed():
+                # the real entry point of the command: receive(args) -> Receiver(args).go()
+                d = cmd_receive.receive(args, reactor=task.Clock())
+                d.addCallbacks(lambda _: result.append(None), lambda f: result.append(f.value))
+        if not result:
+            raise RuntimeError("cmd_receive.receive() did not finish synchronously")
+        final = result[0]
+        outcome = "ok" if final is None else canon_exc(final)
+        announced = getattr(made[-1], "abs_destname", None) if made else None
+        succeeded = final is None
+        refused = final is not None and not permission and isinstance(final, TransferError)
+        seq.append("ok" if succeeded else ("refused" if refused else "failed"))
+        tags.append(f"multi:step{i + 1}:{st['mode']}:{seq[-1]}")
+        after = sb.snapshot()
+        opts_after = user_options(args)
+
+        # --- the same operation through the model: args threaded from receive to receive
+        if announced is not None:
+            for p in (announced, announced + ".tmp"):
+                if p not in believed and os_clean(p):
+                    reg.append(p)
+                    believed[p] = "-"
+                    lines.append(f"watch {hx(p)}")
+                    exp.append("ok")
+        shown = f"{hx_any(args.cwd)} {hx_any(getattr(args, 'output_file', None) or '')} {1 if getattr(args, 'accept_file', False) else 0}"
+        ans = hx(st.get("answer", "y"))
+        if st["mode"] == "file":
+            lines.append(f"recv_file {ans} {hx(name)} {1 if dropped else 0}")
+            res = f"ok {hx(announced)}" if succeeded else outcome
+        else:
+            extracted = bool(permission) and not dropped and bool(spy.extracts) and kind_of(announced) == "d"
+            lines.append(f"recv_dir {ans} {hx(st.get('zipmode', 'zipfile/deflated'))} {hx(name)} {1 if dropped else 0} {1 if extracted else 0}")
+            if not permission:
+                res = outcome
+            elif dropped:
+                res = "TransferError"
+            else:
+                res = f"ok {hx(announced)}"
+        exp.append(f"{res} | {kinds(reg)} | {shown}")
+        for p in reg:
+            believed[p] = kind_of(p)
+
+        # --- the oracle, per receive, exactly as for a single one: the options are the ones the USER gave
+        nth = f"receive #{i + 1} of {len(steps)} with one Config object ({' > '.join(seq)}): "
+        for sig, msg in oracle(before, after, sb.cwd, out_abs, out_was_dir, out_set, name, announced, succeeded, refused,
+                               trace=spy.mutations):
+            viol.append((sig, nth + msg))
+        # --- and it leaves the user's options as the user gave them
+        if opts_after != opts_before or opts_after != given:
+            late.append(("receive-changed-user-options",
+                         nth + f"(cwd, output_file, accept_file) given by the user: {given!r}; before this receive: {opts_before!r}; "
+                               f"after it: {opts_after!r} — the next receive with this Config runs under options nobody gave"))
+    tags.append("multi:seq:" + ">".join(seq))
+    tags.append("multi:options-" + ("changed" if late else "unchanged"))
+    viol.extend(late[:1])
+    if viol:
+        tags.append("oracle:" + viol[0][0])
+    return Result(lines, exp, viol, tags, nontrivial=True)
+
+
 def run_case(case):
     k = case["kind"]
     if k == "path":
@@ -1334,6 +1650,8 @@ def run_case(case):
         return run_zip(case)
     if k in ("go", "entry"):
         return run_go(case)
+    if k == "multi":
+        return run_multi(case)
     raise ValueError(k)
 
 
@@ -1350,6 +1668,30 @@ def search(rng, seconds, seeds):
 
 
 def shrink(case):
+    if case.get("kind") == "multi":
+        steps = case["steps"]
+        for i in range(len(steps)):
+            if len(steps) > 1:
+                c = dict(case)
+                c["steps"] = steps[:i] + steps[i + 1:]
+                yield c
+        for simpler in (dict(via="args"), dict(fs="same"), dict(output="unset"), dict(accept=True)):
+            if all(case.get(k) == v for k, v in simpler.items()):
+                continue
+            c = dict(case)
+            c.update(simpler)
+            c.pop("pwd", None) if c["via"] == "args" else None
+            yield c
+        for i, st in enumerate(steps):
+            for simpler in (dict(pretmp="none"), dict(fault="none"), dict(answer="y"), dict(link=None), dict(members=MULTI_MEMBERS),
+                            dict(name=st["name"].split("/")[-1] or st["name"])):
+                if all(st.get(k) == v for k, v in simpler.items()) or (st["mode"] != "dir" and "members" in simpler):
+                    continue
+                c = dict(case)
+                c["steps"] = [dict(x) for x in steps]
+                c["steps"][i].update(simpler)
+                yield c
+        return
     if case.get("kind") in ("recv", "go", "entry"):
         ms = case.get("members") or []
         for i in range(len(ms)):
